@@ -1053,3 +1053,13 @@ add("C14", "setupcfg-writer-without-interpolation-only", CFGW,
 add("C14", "setuppy-writer-follows-names", SPW,
     [("            ) and matchers.matches(arg.value, matchers.List()):\n                new = self.add_dependencies_to_arg(arg)", "            ) and matchers.matches(self.resolve_expression(arg.value), matchers.List()):\n                new = self.add_dependencies_to_arg(arg)")],
     "fire", "R-MANIFEST-SIBLINGS", "name-resolution-agrees")
+CMF = "codemodder/codemodder.py"
+add("C20", "stale-report-removed-before-the-run", CMF,
+    [("    if argv.output:\n", "    if argv.output:\n        Path(argv.output).unlink(missing_ok=True)\n")],
+    "fire", "R-OUTPUT-PATH-OWNER", "unlink")
+add("C20", "updated-manifests-listed-without-none-test", CTXF,
+    [("    def add_description(self, codemod: BaseCodemod):\n", "    def updated_manifests(self):\n        return [store.file for store in self._dependency_update_by_codemod.values()]\n\n    def add_description(self, codemod: BaseCodemod):\n")],
+    "fire", "R-OPTIONAL-ELEMENT-DEREF", "store.file")
+add("C20", "benign-updated-manifests-listed-with-none-test", CTXF,
+    [("    def add_description(self, codemod: BaseCodemod):\n", "    def updated_manifests(self):\n        return [store.file for store in self._dependency_update_by_codemod.values() if store is not None]\n\n    def add_description(self, codemod: BaseCodemod):\n")],
+    "silent")
